@@ -35,11 +35,13 @@ func (w *W) Int(i int64) {
 		w.head(1, uint64(-1-i))
 	}
 }
-func (w *W) Text(s string)  { w.head(3, uint64(len(s))); w.B = append(w.B, s...) }
-func (w *W) Bytes(b []byte) { w.head(2, uint64(len(b))); w.B = append(w.B, b...) }
-func (w *W) Array(n int)    { w.head(4, uint64(n)) }
-func (w *W) Map(n int)      { w.head(5, uint64(n)) }
-func (w *W) Null()          { w.B = append(w.B, 0xf6) }
+func (w *W) Uint(u uint64)   { w.head(0, u) }
+func (w *W) NegRaw(u uint64) { w.head(1, u) } // encodes -1-u
+func (w *W) Text(s string)   { w.head(3, uint64(len(s))); w.B = append(w.B, s...) }
+func (w *W) Bytes(b []byte)  { w.head(2, uint64(len(b))); w.B = append(w.B, b...) }
+func (w *W) Array(n int)     { w.head(4, uint64(n)) }
+func (w *W) Map(n int)       { w.head(5, uint64(n)) }
+func (w *W) Null()           { w.B = append(w.B, 0xf6) }
 func (w *W) Link(c cid.Cid) {
 	w.head(6, 42)
 	w.Bytes(append([]byte{0}, c.Bytes()...))
@@ -98,7 +100,7 @@ func links(cs []cid.Cid) func(*W) {
 }
 
 func text(s string) func(*W) { return func(w *W) { w.Text(s) } }
-func hexs(b []byte) func(*W)  { return func(w *W) { w.Text(hex.EncodeToString(b)) } }
+func hexs(b []byte) func(*W) { return func(w *W) { w.Text(hex.EncodeToString(b)) } }
 
 // EncodeEntry returns the canonical block bytes of a v2 entry.
 func EncodeEntry(e Entry) []byte {
